@@ -21,22 +21,35 @@ LEVEL_TEXT = ("Proof (P): standby_prefix, standby_rejects, transition_no_loss, c
 LEVEL_NOTE = ("Trusted: Coq kernel, Go harness + Python glue. Modelled, not verified: the commithook goroutine, controller waits and gRPC replication service "
               "(abstracted to CReplicateOk/Fail, CAck, CTransition), the pull/fetch machinery (C35), SQL engine. Roots and commits are opaque identifiers; "
               "that a newer root contains the earlier acknowledged writes is the commit-graph property C19/C35.")
+REFUTED = ["push_on_write_present on the real hook after a failed first attempt (DynamicPushOnWriteHook records the remote before the destination opens): reproduced by the correspondence run, "
+           "known finding replication.DynamicPushOnWriteHook:remote-recorded-before-destdb-opens; the model does not reproduce the wedge (those cases are reported through the oracle)"]
 THEOREMS = ["standby_prefix", "standby_rejects", "transition_no_loss", "caught_up_converges", "replica_heads_real", "push_on_write_present"]
-RULE = ("sequences of 4-10 steps: commit on main or on one of two side branches (created on first use) with push-on-write, and read-replica transaction starts "
-        "(pull); non-trivial = at least one commit followed later by a pull; distinct by step list")
-ASSUMPTIONS = ["file:// remote reachable (no injected push/pull failures in this tier: RCommitPushFail / RPullFail are covered by the theorem only)",
+RULE = ("sequences of 4-10 steps: commit on main or on one of two side branches (created on first use) with push-on-write, read-replica transaction starts "
+        "(pull), and remote outages (break / fix) during which commits and pulls happen; non-trivial = at least one commit followed later by a pull; distinct by step list")
+ASSUMPTIONS = ["remote outages are injected by replacing the file:// remote directory with a regular file (pushes and pulls fail) with @@dolt_skip_replication_errors=1; "
+               "the failed push is reported on the server's output/log ('error pushing: ...'), not as a SQL warning of the committing session — the oracle does not require a SQL warning",
                "the replica is observed only when it starts a transaction (it cannot be read through SQL without pulling)"]
-REQUIRED_TAGS = ["commit-main", "commit-branch", "pull", "pull-after-commit", "new-branch-replicated"]
+REQUIRED_TAGS = ["commit-push-failed", "pull-failed", "commit-main", "commit-branch", "pull", "pull-after-commit", "new-branch-replicated"]
 HARNESS_TIMEOUT = 1500
 
 
 def gen_one(rng, n):
     steps = []
+    broken = False
     for _ in range(n):
-        if rng.random() < 0.6:
+        r = rng.random()
+        if r < 0.5:
             steps.append({"op": "commit", "branch": rng.choice([0, 0, 1, 2])})
-        else:
+        elif r < 0.8:
             steps.append({"op": "pull"})
+        elif not broken:
+            steps.append({"op": "break"})       # the remote becomes unreachable: pushes and pulls fail
+            broken = True
+        else:
+            steps.append({"op": "fix"})
+            broken = False
+    if broken:
+        steps.append({"op": "fix"})
     steps.append({"op": "pull"})
     return {"steps": steps}
 
@@ -44,9 +57,29 @@ def gen_one(rng, n):
 def gen_cases(rng, tier):
     fixed = [{"steps": [{"op": "commit", "branch": 0}, {"op": "pull"}, {"op": "commit", "branch": 1}, {"op": "commit", "branch": 0}, {"op": "pull"},
                         {"op": "commit", "branch": 1}, {"op": "pull"}]},
-             {"steps": [{"op": "pull"}, {"op": "commit", "branch": 2}, {"op": "commit", "branch": 2}, {"op": "pull"}, {"op": "pull"}]}]
-    n = 2 if tier == "quick" else 150
+             {"steps": [{"op": "pull"}, {"op": "commit", "branch": 2}, {"op": "commit", "branch": 2}, {"op": "pull"}, {"op": "pull"}]},
+             {"steps": [{"op": "commit", "branch": 0}, {"op": "pull"}, {"op": "break"}, {"op": "commit", "branch": 0}, {"op": "commit", "branch": 1}, {"op": "pull"},
+                        {"op": "fix"}, {"op": "pull"}, {"op": "commit", "branch": 0}, {"op": "pull"}]},
+             {"steps": [{"op": "break"}, {"op": "commit", "branch": 1}, {"op": "fix"}, {"op": "commit", "branch": 1}, {"op": "pull"}]}]
+    n = 5 if tier == "quick" else 150
     return fixed + [gen_one(rng, rng.randint(4, 9)) for _ in range(n)]
+
+
+def _steps(case):
+    """model steps: a commit / pull while the remote is unreachable is the failing variant; break / fix change nothing"""
+    out, broken = [], False
+    for i, s in enumerate(case["steps"]):
+        if s["op"] == "break":
+            broken = True
+            out.append("RPullFail")
+        elif s["op"] == "fix":
+            broken = False
+            out.append("RPullFail")
+        elif s["op"] == "commit":
+            out.append("(%s %d %d)" % ("RCommitPushFail" if broken else "RCommit", s["branch"], i + 1))
+        else:
+            out.append("RPullFail" if broken else "RPull")
+    return out
 
 
 def _heads(h):
@@ -55,7 +88,7 @@ def _heads(h):
 
 def coq_case(case, out):
     o = out.get("obs")
-    steps = cq_list(("(RCommit %d %d)" % (s["branch"], i + 1)) if s["op"] == "commit" else "RPull" for i, s in enumerate(case["steps"]))
+    steps = cq_list(_steps(case))
     inp = "([(0, 0)], %s)" % steps
     if o is None or out.get("err") or out.get("panic") or any(s.get("err") for s in o["steps"]):
         return "(%s, [([(9, 9)], [(9, 9)])])" % inp
@@ -69,15 +102,25 @@ def classify(case, out):
         return ["harness-error"]
     t = set()
     seen_commit = False
+    broken = False
     for s, so in zip(case["steps"], o["steps"]):
         if so.get("err"):
             t.add("step-error")
         if so.get("warn"):
             t.add("warning")
+        if s["op"] in ("break", "fix"):
+            broken = s["op"] == "break"
+            continue
         if s["op"] == "commit":
             t.add("commit-main" if s["branch"] == 0 else "commit-branch")
+            if broken:
+                t.add("commit-push-failed")
+            if _wedged(case):
+                t.add("hook-wedged-after-first-failure")
             seen_commit = True
         else:
+            if broken:
+                t.add("pull-failed")
             t.add("pull")
             if seen_commit:
                 t.add("pull-after-commit")
@@ -91,5 +134,25 @@ def nontrivial(case, out):
     return "commit" in ops and "pull" in ops[ops.index("commit"):]
 
 
+def _wedged(case):
+    """the first commit after @@dolt_replicate_to_remote was set ran while the remote was unreachable, and a later
+    commit ran with the remote reachable again"""
+    broken, first, wedged = False, True, False
+    for s in case["steps"]:
+        if s["op"] == "break":
+            broken = True
+        elif s["op"] == "fix":
+            broken = False
+        elif s["op"] == "commit":
+            if first and broken:
+                wedged = True
+            elif wedged and not broken:
+                return True
+            first = False
+    return False
+
+
 def match_known(finding, case, out):
+    if finding.get("key") == "replication.DynamicPushOnWriteHook:remote-recorded-before-destdb-opens":
+        return _wedged(case)
     return False
